@@ -258,21 +258,21 @@ Print Assumptions C13_write_replaces_object.
    of the bucket (any function). *)
 Theorem C13_remerge_reads_current :
   forall (R : Type) (enc : R -> bytes) (dec : bytes -> option R) (proj : R -> report)
-         (ord : bucket bytes -> bucket bytes) it lts ltg cfg,
+         (ord : bucket bytes -> bucket bytes) (pos : list bool) it lts ltg cfg,
   (forall r, ~ In nl (enc r)) -> (forall r, enc r <> []) -> (forall r, dec (enc r) = Some r) ->
   forall st0 ops date rs,
-  let st := fst (run_ops R enc dec proj ord it lts ltg cfg st0 ops) in
-  map dec (day_objects ord (ws_upload st) date) = map (@Some R) rs ->
-  let '(st', resp) := do_merge R enc dec ord st date in
+  let st := fst (run_ops R enc dec proj ord pos it lts ltg cfg st0 ops) in
+  map dec (day_objects ord pos st date) = map (@Some R) rs ->
+  let '(st', resp) := do_merge R enc dec ord pos st date in
   resp = RespMerge (length rs) true /\
-  ws_upload st' = ws_upload st /\ ws_chart st' = ws_chart st /\
+  ws_upload st' = ws_upload st /\ ws_stray st' = ws_stray st /\ ws_chart st' = ws_chart st /\
   (forall n, n <> date ++ json_ext -> b_get (ws_merged st') n = b_get (ws_merged st) n) /\
   exists file, b_get (ws_merged st') (date ++ json_ext) = Some file /\
                unframe file = map enc rs /\ read_merged R dec file = Some rs.
 Proof.
-  exact (fun R enc dec proj ord it lts ltg cfg H1 H2 H3 st0 ops date rs =>
-           remerge_reads_current R enc dec ord H1 H2 H3
-             (fst (run_ops R enc dec proj ord it lts ltg cfg st0 ops)) date rs).
+  exact (fun R enc dec proj ord pos it lts ltg cfg H1 H2 H3 st0 ops date rs =>
+           remerge_reads_current R enc dec ord pos H1 H2 H3
+             (fst (run_ops R enc dec proj ord pos it lts ltg cfg st0 ops)) date rs).
 Qed.
 Print Assumptions C13_remerge_reads_current.
 
@@ -281,20 +281,50 @@ Print Assumptions C13_remerge_reads_current.
    exactly the currently stored reports. *)
 Theorem C13_chart_after_remerge :
   forall (R : Type) (enc : R -> bytes) (dec : bytes -> option R) (proj : R -> report)
-         (ord : bucket bytes -> bucket bytes),
+         (ord : bucket bytes -> bucket bytes) (pos : list bool),
   (forall r, ~ In nl (enc r)) -> (forall r, enc r <> []) -> (forall r, dec (enc r) = Some r) ->
   forall it lts ltg cfg st day rs,
   iter_ok it -> cfg_ok lts ltg cfg ->
-  map dec (day_objects ord (ws_upload st) (fmt_date day)) = map (@Some R) rs ->
-  let st1 := fst (do_merge R enc dec ord st (fmt_date day)) in
+  map dec (day_objects ord pos st (fmt_date day)) = map (@Some R) rs ->
+  let st1 := fst (do_merge R enc dec ord pos st (fmt_date day)) in
   exists cd,
     do_chart R dec proj it lts ltg cfg st1 day day =
-      (mkWS (ws_upload st1) (ws_merged st1) (b_put (chart_object_name day day) cd (ws_chart st1)),
+      (mkWS (ws_upload st1) (ws_stray st1) (ws_merged st1) (b_put (chart_object_name day day) cd (ws_chart st1)),
        RespChart (ChartOk (chart_object_name day day) cd)) /\
     cd_num cd = length rs /\
     chart_ok lts ltg cfg (fmt_date day) (fmt_date day) (map proj rs) cd = true.
 Proof. exact chart_after_remerge. Qed.
 Print Assumptions C13_chart_after_remerge.
+
+(* ---- the listing and the date range (round 4) --------------------- *)
+
+(* The listing a merge works from is the stored objects with the day's
+   prefix, wherever unlistable stray directories (ws_stray, any number, any
+   names) fall in the walk (pos) -- so every theorem above about "the
+   currently stored reports" holds whatever else lies in the bucket. *)
+Theorem C13_listing_ignores_strays :
+  forall ord pos st date,
+  day_objects ord pos st date = map snd (filter (fun nv => has_prefix (fst nv) date) (ord (ws_upload st))).
+Proof. exact listing_ignores_strays. Qed.
+Print Assumptions C13_listing_ignores_strays.
+
+(* The range of /chart/ and /copy/ is every day from start to end inclusive,
+   across month and year boundaries and over any number of years (days are
+   day numbers; Lib/Calendar renders them). *)
+Theorem C13_range_is_every_day :
+  forall start end_ day, In day (range_days start end_) <-> (start <= day <= end_)%Z.
+Proof. exact range_days_in. Qed.
+Print Assumptions C13_range_is_every_day.
+
+(* handleCopy: every object of every day of the range arrives with its content *)
+Theorem C13_copy_covers_range :
+  forall (ord : bucket bytes -> bucket bytes), (forall l, Permutation (ord l) l) ->
+  forall src, NoDup (map fst src) ->
+  forall dst start end_ day n v,
+  (start <= day <= end_)%Z -> In (n, v) src -> has_prefix n (fmt_date day) = true ->
+  b_get (copy_range ord src dst start end_) n = Some v.
+Proof. exact copy_covers_range. Qed.
+Print Assumptions C13_copy_covers_range.
 
 (* ---- non-vacuity --------------------------------------------------- *)
 
@@ -325,8 +355,8 @@ Proof. exact example_chart. Qed.
 (* three reports merged, one withdrawn and one re-stored shorter, merged again:
    the merged object is the two-line one *)
 Example C13_example_remerge :
-  let '(st, resps) := run_ops nat ex_enc ex_dec (fun _ => mkReport [] 0%Z []) (fun b => b) iter_id bltb bltb
+  let '(st, resps) := run_ops nat ex_enc ex_dec (fun _ => mkReport [] 0%Z []) (fun b => b) [true] iter_id bltb bltb
                               (mkCfg [] [] [] []) ws_empty ex_ops in
-  resps = [RespNone; RespNone; RespNone; RespMerge 3 true; RespNone; RespNone; RespMerge 2 true] /\
+  resps = [RespNone; RespNone; RespNone; RespMerge 3 true; RespNone; RespNone; RespNone; RespMerge 2 true] /\
   b_get (ws_merged st) ([100%N] ++ json_ext) = Some (frame [ex_enc 1; ex_enc 2]).
 Proof. exact example_remerge. Qed.
